@@ -201,6 +201,21 @@ pub fn gen_cfg(id: &str, tier: Tier, variant: u64) -> GenCfg {
         }
         "C03" | "C04" => GenCfg::new(if variant % 2 == 0 { Mode::Full } else { Mode::Safe }, ops),
         "C09" => GenCfg::new(Mode::Full, ops),
+        // elided unadopt combined with try_unwrap / make_mut (both give an
+        // allocation up without going through Drop)
+        "C13" | "C12" if variant % 4 == 2 => {
+            let mut g = GenCfg::new(Mode::Elide, ops);
+            g.weights.consume = 2;
+            g.weights.remove = 14;
+            g
+        }
+        // a fresh allocation made by make_mut, or an object whose partners were
+        // unwrapped, has no recorded adoption either
+        "C14" if variant % 4 == 3 => {
+            let mut g = GenCfg::new(Mode::Consume, ops);
+            g.weights.consume = 2;
+            g
+        }
         "C13" => GenCfg::new(Mode::Elide, ops),
         // C02 is stated for "any history"; a quarter of the workers explore the
         // ELIDE domain (elided unadopt is documented as safe), with the known
